@@ -29,23 +29,30 @@ let item_of (s : string) : ritem =
   | 'u' -> RNameU (name_of_hex body)
   | _ -> failwith "bad item"
 
-let op_of (w : string) : op =
+(* one harness op = a list of model ops; conversions are the code's own
+   compositions of single steps (g<k>: .question()/.answer()/.authority()/
+   .additional(); B: .builder().question()).  sec tracks the current section. *)
+let rec rep n x = if n <= 0 then [] else x :: rep (n - 1) x
+let ops_of (sec : int ref) (w : string) : op list =
   match split ':' w with
-  | ["q"; nm; ty; cl] -> OpQ { q_name = name_of_hex nm; q_type = ni ty; q_class = ni cl }
+  | ["q"; nm; ty; cl] -> [OpQ { q_name = name_of_hex nm; q_type = ni ty; q_class = ni cl }]
   | ["r"; nm; ty; cl; ttl; pfx; items] ->
-      OpR { r_owner = name_of_hex nm; r_type = ni ty; r_class = ni cl; r_ttl = ni ttl;
-            r_prefixed = (pfx = "1");
-            r_data = (if items = "-" then [] else List.map item_of (split ',' items)) }
+      [OpR { r_owner = name_of_hex nm; r_type = ni ty; r_class = ni cl; r_ttl = ni ttl;
+             r_prefixed = (pfx = "1");
+             r_data = (if items = "-" then [] else List.map item_of (split ',' items)) }]
   | ["o"; udp; opts] ->
       let one s = match split '.' s with
         | [code; data] -> let d = bytes_of_hex data in ((ni code, n_of_int (List.length d)), d)
         | _ -> failwith "bad option" in
-      OpOpt (ni udp, (if opts = "-" then [] else List.map one (split ',' opts)))
-  | ["B"] -> OpBuilder
-  | ["w"] -> OpRewind
-  | ["L"] -> OpLimit None
-  | [x] when String.length x >= 2 && x.[0] = 'g' -> OpGoto (ni (String.sub x 1 (String.length x - 1)))
-  | [x] when String.length x >= 2 && x.[0] = 'l' -> OpLimit (Some (ni (String.sub x 1 (String.length x - 1))))
+      [OpOpt (ni udp, (if opts = "-" then [] else List.map one (split ',' opts)))]
+  | ["B"] -> let k = !sec in sec := 0; rep k OpBack @ [OpRewind]
+  | ["w"] -> [OpRewind]
+  | ["L"] -> [OpLimit None]
+  | [x] when String.length x >= 2 && x.[0] = 'g' ->
+      let k = min 3 (int_of_string (String.sub x 1 (String.length x - 1))) in
+      let cur = !sec in sec := k;
+      if k >= cur then rep (k - cur) OpNext else rep (cur - k) OpBack
+  | [x] when String.length x >= 2 && x.[0] = 'l' -> [OpLimit (Some (ni (String.sub x 1 (String.length x - 1))))]
   | _ -> failwith ("bad op " ^ w)
 
 let word = function
@@ -70,9 +77,23 @@ let handle = function
                   t_stream = (t = "s");
                   t_kind = (match k with "n" -> KNone | "s" -> KStatic | "t" -> KTree | "h" -> KHash
                                        | _ -> failwith "bad kind") } in
-      (match c02_run cfg (List.map op_of ops) with
+      let sec = ref 0 in
+      let groups = List.map (ops_of sec) ops in
+      (match c02_run cfg (List.concat groups) with
        | None -> "INIT-ERR"
-       | Some ((st, a), ws) ->
+       | Some ((st, a), ws0) ->
+           (* regroup: one word per harness op (the last word of its group;
+              a conversion group of length 0 is a no-op) *)
+           let rec regroup gs ws = match gs with
+             | [] -> []
+             | g :: gs' ->
+                 let rec take n ws last = if n = 0 then (last, ws, false) else
+                   (match ws with [] -> (last, [], true)
+                                | w :: r -> (match w with RPanic _ | RFuel -> (w, [], true) | _ -> take (n - 1) r w)) in
+                 let (w, rest, stop) = take (List.length g) ws RNone in
+                 if stop then (if rest = [] && (match w with RPanic _ | RFuel -> true | _ -> false) then [w] else [])
+                 else w :: regroup gs' rest in
+           let ws = regroup groups ws0 in
            let r = "R=" ^ (if ws = [] then "-" else String.concat "," (List.map word ws)) in
            let dead = List.exists (function RPanic _ | RFuel -> true | _ -> false) ws in
            if dead then r ^ " DEAD" else
